@@ -13,15 +13,19 @@ from .common import GRAMMAR
 LEVEL_TEXT = (
     "Static rules: (R1) may-mutate effect analysis with a freshness lattice over every function outside the "
     "grammar's construction set: no item store, del, in-place augmented assignment or mutating container method "
-    "(append/remove/pop/update/...) is applied to a value owned by a Grammar - the Grammar-typed expression itself, "
-    "its attribute containers, their elements/views, local aliases and conditional aliases ('copy only if ...') - "
-    "directly or through a resolved callee that mutates the corresponding parameter; copies (list(), comprehension, "
-    "slice, copy, deepcopy) end ownership; (R2) registration / preprocessing / weight rewriting are called only from "
-    "the construction set and production weights are stored only by the weight decorator and update_weights; (R3) the "
-    "grammar's observable tables are not auto-vivifying (a defaultdict would turn every unguarded read into an "
-    "insertion) or every read outside construction is membership-guarded. Decides this for all grammars and all "
-    "operation sequences, including failing and backtracking ones; does not decide mutation through dynamic "
-    "attribute names or user code."
+    "(append/remove/pop/update/...) is applied to a value owned by a Grammar - the Grammar-typed expression "
+    "itself, its attribute containers, their elements/views, local aliases and conditional aliases ('copy only if"
+    " ...') - directly or through a resolved callee that mutates the corresponding parameter; copies (list(), "
+    "comprehension, slice, copy, deepcopy) end ownership; (R2) registration / preprocessing / weight rewriting "
+    "are called only from the construction set and production weights are stored only by the weight decorator and"
+    " update_weights; (R3) the grammar's observable tables are not auto-vivifying (a defaultdict would turn every"
+    " unguarded read into an insertion) or every read outside construction is membership-guarded. (R4) the "
+    "refinement objects attached to annotated types are part of the grammar: no method of a MetaHandlerGenerator "
+    "subclass other than its constructor modifies the object's own state - attributes, their containers, elements"
+    " and views such as the rows of a probability matrix - directly or by passing them to a callee that writes to"
+    " the corresponding parameter (e.g. a random primitive that accumulates its weights in place). Decides this "
+    "for all grammars and all operation sequences, including failing and backtracking ones; does not decide "
+    "mutation through dynamic attribute names or user code."
 )
 
 CONSTRUCTION = {
@@ -79,6 +83,7 @@ def run(ctx: Ctx) -> None:
     ctx.rule("C10.R1", "no mutating operation on a Grammar-owned value outside the construction set (interprocedural)")
     ctx.rule("C10.R2", "grammar construction / weight rewriting only from the construction set")
     ctx.rule("C10.R3", "observable grammar tables are not auto-vivifying, or reads are membership-guarded")
+    ctx.rule("C10.R4", "refinement objects (part of the grammar's types) are not modified by their own methods, directly or through a callee")
     gcls = prog.get_class(GRAMMAR)
     for name in CONSTRUCTION:
         if name not in prog.functions:
@@ -142,6 +147,26 @@ def run(ctx: Ctx) -> None:
                         ctx.ob("C10.R2", f, n, "store to a production weight", ok,
                                "" if ok else "production weights are rewritten outside the weight decorator / update_weights")
     ctx.floor("C10.R2", n2, 6, "construction calls and weight stores")
+
+    # ---- R4 refinement objects are part of the grammar: their state is read-only after construction
+    from .common import METAHANDLER
+    n4 = 0
+    for cfn, c in sorted(prog.classes.items()):
+        if not prog.is_subclass(c, METAHANDLER):
+            continue
+        for mname, m in sorted(c.methods.items()):
+            if mname in ("__init__", "__class_getitem__", "__post_init__") or not m.params or m.params[0] != "self":
+                continue
+            n4 += 1
+            muts = ma.analyse(m, {"self": 0})
+            if not muts:
+                ctx.ob("C10.R4", m, m.node, "no mutation of the refinement's own state", True, "")
+            for mu in muts:
+                ctx.ob("C10.R4", m, mu.node, f"{mu.how} on {mu.what}"[:120], False,
+                       f"'{norm(mu.node)[:80]}' modifies state of a refinement object ({mu.what}); the object is part of the "
+                       f"grammar's annotated types, so what the grammar can produce changes for the rest of the process"
+                       + (f" [via {' -> '.join(mu.chain)}]" if mu.chain else ""))
+    ctx.floor("C10.R4", n4, 25, "methods of refinement classes analysed")
 
     # ---- R3 auto-vivifying tables
     init = prog.get_function("geneticengine.grammar.grammar:Grammar.__init__")
